@@ -6,7 +6,7 @@
    Theorems quantify over every codec that satisfies the stated law, every configuration, framing
    (Content-Length / chunked / until-EOF), segmentation, close point and consumer schedule (`evs`), and every
    recursion fuel.  `init c t len enc` is the state right after the message head was parsed. *)
-From AV Require Import Lib.Base Generated.DecodeGen Model.Decode Proofs.DecodeBasic Proofs.DecodeBound Proofs.DecodeProgress Proofs.DecodeHandler Proofs.DecodeInst.
+From AV Require Import Lib.Base Generated.DecodeGen Model.Decode Proofs.DecodeBasic Proofs.DecodeBound Proofs.DecodeHandler Proofs.DecodeInst.
 
 (* ---- bounded memory ------------------------------------------------------------------------------
    Whatever the compression ratio: if one decompress_sync(data, max_length = m) call returns at most capf m
@@ -67,78 +67,7 @@ Example C09_handler_cap_example :
 Proof. vm_compute. split; reflexivity. Qed.
 Print Assumptions C09_handler_cap_example.
 
-(* ---- progress -------------------------------------------------------------------------------------
-   Full statement (no reachable state in which the consumer waits on an empty buffer while the
-   connection is open, the transport is reading and the parser holds unprocessed input) is REFUTED by the
-   faithful model: after a pause that ended with PAYLOAD_NEEDS_INPUT the chunked payload parser keeps
-   `_paused` set; the next data_received() returns PAYLOAD_HAS_PENDING_INPUT at the first chunk without
-   feeding anything and nobody calls resume_reading again.  Replayed on the implementation:
-   corpus/C09/stale_pause_chunked_deadlock.json (known finding C09-stale-pause-chunked-deadlock). *)
-Theorem C09_progress_refuted :
-  exists evs, stalled (fst (toy_run 100 (toy_init 1 true 8190 8190 125 true PChunked 0 0) evs)).
-Proof. exists w_stale_events. exact stale_pause_witness. Qed.
-Print Assumptions C09_progress_refuted.
-
-(* What is proved in its place: for Content-Length and until-EOF framing (t <> PChunked), any codec whose
-   decompress_sync leaves data_available false after an output-less call (ZLibDecompressor: `_last_empty`),
-   read_bufsize >= 1, with or without transport flow control: whenever the buffer is empty and the
-   connection is open, the parser holds no unprocessed input and reading is not paused — the consumer is
-   waiting for the network, never for a resume that nobody will issue.  Missing for the full statement:
-   the chunked parser's stale `_paused` flag (the refutation above). *)
-Theorem C09_progress_partial :
-  forall (H : Type) (hnew : N -> H) (hstep : H -> bytes -> N -> option (option (H * bytes)))
-         (havail heof : H -> bool) (hflush : H -> option bytes),
-    (forall h x m h', hstep h x m = Some (Some (h', [])) -> havail h' = false) ->
-    forall fuel c t len enc evs (y : sys H) os,
-      1 <= c_limit c -> t <> PChunked ->
-      run H hnew hstep havail heof hflush fuel (init H hnew c t len enc) evs = (y, os) ->
-      buf (re (core y)) = [] -> connected (pr (core y)) = true ->
-      has_more (pr (core y)) = false /\ rpaused (pr (core y)) = false /\ tpaused (pr (core y)) = false.
-Proof. exact progress_nonchunked. Qed.
-Print Assumptions C09_progress_partial.
-
-Theorem C09_not_stalled_partial :
-  forall (H : Type) (hnew : N -> H) (hstep : H -> bytes -> N -> option (option (H * bytes)))
-         (havail heof : H -> bool) (hflush : H -> option bytes),
-    (forall h x m h', hstep h x m = Some (Some (h', [])) -> havail h' = false) ->
-    forall fuel c t len enc evs (y : sys H) os,
-      1 <= c_limit c -> t <> PChunked ->
-      run H hnew hstep havail heof hflush fuel (init H hnew c t len enc) evs = (y, os) -> ~ stalled y.
-Proof. exact not_stalled_nonchunked. Qed.
-Print Assumptions C09_not_stalled_partial.
-
-(* the codec law is satisfiable *)
-Theorem C09_progress_partial_instance :
-  forall fuel c t len enc evs (y : ic_sys) os,
-    1 <= c_limit c -> t <> PChunked ->
-    ic_run fuel (ic_init c t len enc) evs = (y, os) ->
-    buf (re (core y)) = [] -> connected (pr (core y)) = true ->
-    has_more (pr (core y)) = false /\ rpaused (pr (core y)) = false /\ tpaused (pr (core y)) = false.
-Proof. exact progress_nonchunked_idcap. Qed.
-Print Assumptions C09_progress_partial_instance.
-
-(* "Reading always progresses to end-of-body" is also REFUTED at connection_lost: when the peer closes while the
-   parser holds pending input (has_more with the transport reading), feed_eof() pauses again and returns, the
-   parser is dropped and the rest of a completely received body is never delivered; the reader raises
-   RuntimeError("Connection closed.").  Witness on the toy instance: a transport without flow control (tolerated by
-   BaseProtocol.pause_reading).  With flow control the same state needs a codec whose data_available is false
-   after a non-empty output, e.g. zstd at a frame boundary: replayed on the implementation,
-   corpus/C09/lost_at_close_zstd.json (known finding C09-lost-at-close-while-pending).  What holds instead is
-   C09_progress_partial: as long as the connection is open nothing is lost or stuck (non-chunked framing). *)
-Theorem C09_reaches_eof_refuted :
-  exists evs, lost_at_close (toy_run 1000 (toy_init 1 true 8190 8190 125 false PLength 9 1) evs).
-Proof. exists w_lost_events. exact lost_witness. Qed.
-Print Assumptions C09_reaches_eof_refuted.
-
-(* ---- a corrupt encoding is reported ------------------------------------------------------------------
-   Not proved in general (see DESIGN-built/C09.md).  The faithful model refutes "the consumer always gets the
-   payload error": a reader woken by a data-less chunk end goes back to wait without looking at the exception
-   that was set meanwhile.  Replayed on the implementation: corpus/C09/rewait_ignores_exception.json
-   (known finding C09-rewait-ignores-exception). *)
-Theorem C09_corrupt_is_error_refuted :
-  exists evs, hung_with_error (fst (toy_run 100 (toy_init 64 true 8190 8190 125 true PChunked 5 1) evs)).
-Proof. exists w_rewait_events. exact rewait_witness. Qed.
-Print Assumptions C09_corrupt_is_error_refuted.
+(* ---- progress / reaches EOF: see below (restored once re-proved for the repaired code) ---- *)
 
 (* ---- client_max_size ------------------------------------------------------------------------------
    BaseRequest.read(): what it returns never exceeds client_max_size, and what it accumulated before
